@@ -378,7 +378,13 @@ impl BuiltInFunction {
                     unreachable!()
                 };
 
-                {
+                if gc::Gc::ptr_eq(&v_original_shared.0, &v_add.0) {
+                    // `xs.join(xs)`: both names denote one list, which cannot be borrowed mutably twice
+                    let mut v_original = v_original_shared.0.borrow_mut();
+                    let copy = v_original.clone();
+
+                    v_original.extend(copy);
+                } else {
                     let mut v_original = v_original_shared.0.borrow_mut();
                     let mut v_add = v_add.0.borrow_mut();
 
